@@ -1,6 +1,8 @@
 # C20 — Array / String methods over any call sequence: generated histories executed through
 # real templates (runner "T" of harness/tmpl.go), judged inside Coq against Models/ArrayOps.v
-# (M = the code, S = JavaScript).
+# (M = the code, S = JavaScript).  Two kinds of histories: array histories (aliasing, storage sharing,
+# state kept between calls) and string histories (receivers, separators and indices at the places where
+# a convenient library routine is not the JavaScript method; see edge_string / split_sep below).
 import json
 from common import *
 import tmpl
@@ -19,7 +21,137 @@ MUTATING = ("push", "pop", "shift", "unshift", "sort", "splice")
 WORDS = ["a", "b", "B", "ab", "abc", "Zed", "x y", "", "1", "10", "2", "true", "null", "a,b", "hello World",
          "-1", "09", "z", "A", "aa", "b,a,,c", "k=v;", "0"]
 NUMS = [0, 1, 2, 3, 5, 9, 10, 11, 12, 20, 100, 101, -1, -2, -10, 7]
-SEPS = [",", "", "-", ", ", ";", "a", "b,"]
+SEPS = [",", "", "-", ", ", ";", "a", "b,", " "]
+
+# ---- strings and arguments that tell JavaScript's String methods from look-alike library routines
+# (strings.Fields / TrimSpace / regexp.Split / Count-based splitting / unicode case tables ...): short words over
+# tiny alphabets, so that blanks come leading, trailing and adjacent, tabs and line feeds stand where a blank is the
+# separator, separators overlap themselves ("aa" in "aaa"), regular-expression operators are data, and the
+# characters next to the letter ranges (@ [ ` {) and digits go through the case mappings.  All ASCII; none of
+# & < > " ' \ | (the escaper's and the template's own characters).
+WS = " \t\n"
+ALPHABETS = [
+    (40, [" a", " ab", "  a\t", " a\n", " \t\n", "\ta b", " a,", "  A", ", a"]),        # white space
+    (20, ["a", "ab", "aab", "-a-", ",,a", "aA", "abab"]),                                # runs and self-overlaps
+    (25, ["Zz@[`{", "@AZ[", "`az{", "@`[{", "09:/ aZ", "mM~}!", "AZaz", "xX_-", "a1 ", "@a`A"]),   # case mapping
+    (15, ["a.b*", "(a)+?", "[a]^$", "a.", "+-"]),                                        # regular-expression operators
+]
+
+
+def edge_string(rng):
+    x = rng.randrange(100)
+    for w, group in ALPHABETS:
+        if x < w:
+            break
+        x -= w
+    alpha = rng.choice(group)
+    return "".join(rng.choice(alpha) for _ in range(rng.choice([0, 1, 2, 3, 3, 4, 4, 5, 6, 7, 9, 12])))
+
+
+def self_overlaps(s):
+    """pieces of s that occur in s at two overlapping places: "aa" in "aaa", "aba" in "ababa" """
+    out = []
+    for n in (2, 3):
+        for i in range(len(s) - n + 1):
+            d = s[i:i + n]
+            if any(s.startswith(d, i + k) for k in range(1, n)):
+                out.append(d)
+    return out
+
+
+def split_sep(rng, s):
+    """a separator for s.split: the one-blank separator where s holds white space, pieces of s (single, doubled,
+    overlapping), s itself, something longer than s, the empty separator"""
+    x = rng.random()
+    if x < (0.5 if any(c in WS for c in s) else 0.12):
+        return " "
+    if s:
+        i = rng.randrange(len(s))
+        ov = self_overlaps(s)
+        if ov and x < 0.62:
+            return rng.choice(ov)
+        if x < 0.56:
+            return s[i]
+        if x < 0.66:
+            return s[i] * 2
+        if x < 0.74:
+            return s[i:i + rng.randint(2, 3)]
+        if x < 0.79:
+            return s
+    if x < 0.84 or x < 0.90 and not s:
+        return s + rng.choice(["a", " ", s[-1:] or ","])
+    if x < 0.93:
+        return ""
+    return rng.choice(SEPS + ["\t", "\n", "  ", "X", "aa", "."])
+
+
+def index_needle(rng, s):
+    x = rng.random()
+    if x < 0.15:
+        return ""
+    if s:
+        i = rng.randrange(len(s))
+        if x < 0.55:
+            return s[i:i + rng.randint(1, 3)]
+        if x < 0.62:
+            return s
+        if x < 0.70:
+            return s[i] * 2
+        if x < 0.76:
+            return s[i].swapcase()
+    if x < 0.84:
+        return s + rng.choice(["a", " "])
+    return rng.choice(["z", "ab", ",", " ", "\t", "A", "a", ".", "  "])
+
+
+def str_index(rng, n, lo):
+    """an index for charAt / slice on a string of length n: inside, at the length, beyond it"""
+    x = rng.random()
+    if x < 0.70:
+        return rng.randint(lo, n + 1)
+    if x < 0.88:
+        return n + rng.randint(2, 6)
+    return rng.choice([50, 99, 1000])
+
+
+BLANK_CLASS = "split_blank_on_edge_or_adjacent_whitespace"
+
+
+def str_class(f, s, d):
+    """the named situations of the String methods a call is in (evidence only)"""
+    out = []
+    if f == "split":
+        if d == " " and s and (s[0] in WS or s[-1] in WS or "\t" in s or "\n" in s or
+                               any(a in WS and b in WS for a, b in zip(s, s[1:]))):
+            out.append(BLANK_CLASS)
+        occ = [i for i in range(len(s)) if d and s.startswith(d, i)]
+        if any(0 < j - i < len(d) for i in occ for j in occ):
+            out.append("split_overlapping_separator")
+        if len(d) > len(s):
+            out.append("split_separator_longer_than_string")
+        if s == "":
+            out.append("split_empty_receiver")
+        if d == "":
+            out.append("split_empty_separator")
+        if d and d == s:
+            out.append("split_separator_is_string")
+        if d and (s.startswith(d) or s.endswith(d) or d + d in s):
+            out.append("split_empty_pieces")
+    elif f == "indexOf":
+        if d == "":
+            out.append("indexOf_empty_needle")
+        if len(d) > len(s):
+            out.append("indexOf_needle_longer_than_string")
+    elif f == "slice":
+        out.append("slice_negative" if d < 0 else "slice_beyond_length" if d > len(s) else "slice_at_length" if d == len(s) else "slice_inside")
+    elif f == "charAt":
+        out.append("charAt_beyond_length" if d > len(s) else "charAt_at_length" if d == len(s) else "charAt_inside")
+    elif f in ("toUpperCase", "toLowerCase"):
+        if any(not c.isalpha() for c in s):
+            out.append("case_mapping_with_non_letters")
+        if any(c in "@[`{" for c in s):
+            out.append("case_mapping_next_to_letter_range")
+    return out
 
 
 def vname(n):
@@ -191,10 +323,12 @@ def rand_elem(rng, nulls=True):
     return None
 
 
-def gen_case(rng, maxops, hostile):
+def gen_case(rng, maxops, hostile, stringy=False):
+    """stringy: a history mostly of String method calls on edge_string receivers (their results - pieces of split,
+    slices, characters, case-mapped copies - become receivers and array elements in turn)"""
     sim = Sim()
     inits, body = [], []
-    stats = {"args": {"lit": 0, "native": 0, "boxed": 0}}
+    stats = {"args": {"lit": 0, "native": 0, "boxed": 0}, "str": {}}
     native = set()
 
     def add_init(i, val):
@@ -203,7 +337,7 @@ def gen_case(rng, maxops, hostile):
         sim.env[v] = val
         return v
 
-    for _ in range(rng.choice([1, 1, 2, 2, 3])):
+    for _ in range(rng.choice([0, 1, 1]) if stringy else rng.choice([1, 1, 2, 2, 3])):
         n = rng.choice([0, 1, 2, 3, 3, 4, 5, 6, 8, 13, 16]) if rng.random() < 0.9 else rng.randint(0, 20)
         distinct = n > 12 and rng.random() < 0.7
         xs = []
@@ -224,16 +358,26 @@ def gen_case(rng, maxops, hostile):
     for _ in range(rng.choice([0, 1, 2])):
         x = rng.choice([0, 1, 2, 3, "a", ",", "1", None, False, 10, "abc"])
         add_init({"k": "box", "v": L(x)}, x)
-    for _ in range(rng.choice([0, 1, 1, 2])):
-        s = rng.choice(WORDS + ["Hello, World", "one two  three", "aXbXXc", "MiXeD Case 123"])
+    for _ in range(rng.choice([0, 1, 2]) if stringy else 0):      # separators / needles held in variables
+        x = rng.choice([" ", " ", ",", "a", "aa", "", "\t", ".", "  "])
+        if rng.random() < 0.5:
+            native.add(add_init({"k": "nat", "v": L(x)}, x))
+        else:
+            add_init({"k": "box", "v": L(x)}, x)
+    for _ in range(rng.choice([2, 3, 3, 4]) if stringy else rng.choice([0, 1, 1, 2])):
+        if rng.random() < (0.8 if stringy else 0.4):
+            s = edge_string(rng)
+        else:
+            s = rng.choice(WORDS + ["Hello, World", "one two  three", "aXbXXc", "MiXeD Case 123", " padded ", "tab\there",
+                                    "two\nlines", "a.b.c", "x+y", "aaa", "[0]"])
         if rng.random() < 0.5:
             native.add(add_init({"k": "nat", "v": L(s)}, s))
         else:
             add_init({"k": "box", "v": L(s)}, s)
 
-    def arg_of(val_ok, make_lit):
+    def arg_of(val_ok, make_lit, pvar=0.45):
         """an argument whose JS value satisfies val_ok: a variable (native or boxed) or a literal"""
-        if rng.random() < 0.45:
+        if rng.random() < pvar:
             c = [v for v in sim.scalars() if val_ok(sim.env[v])]
             if c:
                 v = rng.choice(c)
@@ -265,7 +409,7 @@ def gen_case(rng, maxops, hostile):
             if y in native:
                 native.add(x)
             continue
-        use_str = strs and (not arrs or rng.random() < 0.22)
+        use_str = strs and (not arrs or rng.random() < (0.6 if stringy else 0.22))
         if not use_str and not arrs:
             break
         recv = rng.choice(strs if use_str else arrs)
@@ -273,32 +417,41 @@ def gen_case(rng, maxops, hostile):
         if use_str:
             s = sim.env[recv]
             f = rng.choice(STR_METHODS)
+            f = rng.choice(STR_METHODS + ["split", "split"]) if stringy else f
+            d = None
+            if f in ("toUpperCase", "toLowerCase") and rng.random() < 0.5:   # the neighbours of the letter ranges
+                c = [v for v in strs if any(ch in "@[`{" for ch in sim.env[v])]
+                if c:
+                    recv = rng.choice(c)
+                    s = sim.env[recv]
+            if f == "split" and rng.random() < 0.5:     # the receivers on which look-alike splitters differ
+                c = [v for v in strs if str_class("split", sim.env[v], " ")[:1] == [BLANK_CLASS] or self_overlaps(sim.env[v])]
+                if c:
+                    recv = rng.choice(c)
+                    s = sim.env[recv]
             if f == "length":
                 res = len(s)
             elif f == "charAt":
-                a, n = arg_of(lambda x: is_num(x) and 0 <= x <= len(s) + 1, lambda: rng.randint(0, len(s) + 1))
-                args, res = [a], s[n:n + 1]
+                a, d = arg_of(lambda x: is_num(x) and 0 <= x, lambda: str_index(rng, len(s), 0))
+                args, res = [a], s[d:d + 1]
             elif f == "indexOf":
-                def sub():
-                    if s and rng.random() < 0.7:
-                        i = rng.randrange(len(s))
-                        return s[i:i + rng.randint(0, 3)]
-                    return rng.choice(["", "z", "ab", ","])
-                a, d = arg_of(lambda x: isinstance(x, str), sub)
+                a, d = arg_of(lambda x: isinstance(x, str) and len(x) <= 3, lambda: index_needle(rng, s), 0.3)
                 args, res = [a], s.find(d)
             elif f == "slice":
-                a, n = arg_of(lambda x: is_num(x) and -len(s) <= x <= len(s) + 1, lambda: rng.randint(-len(s), len(s) + 1))
-                args, res = [a], s[n:] if n != 0 else s
-                if n > len(s):
+                a, d = arg_of(lambda x: is_num(x) and -len(s) <= x, lambda: str_index(rng, len(s), -len(s)))
+                args, res = [a], s[d:] if d != 0 else s
+                if d > len(s):
                     res = ""
             elif f == "split":
-                a, d = arg_of(lambda x: isinstance(x, str), lambda: rng.choice(SEPS + [" ", "X"]))
+                a, d = arg_of(lambda x: isinstance(x, str) and len(x) <= 2, lambda: split_sep(rng, s), 0.3)
                 args = [a]
                 newarr = list(s) if d == "" else s.split(d)
             elif f == "toUpperCase":
                 res = s.upper()
             else:
                 res = s.lower()
+            for k in str_class(f, s, d):
+                stats["str"][k] = stats["str"].get(k, 0) + 1
         else:
             loc = sim.env[recv][1]
             items = sim.heap[loc]
@@ -405,7 +558,7 @@ class C20(Prop):
     prop_module = "Props.C20"
     prop_file = "Props/C20.v"
     coq_targets = ["Props/C20.vo", "Run/Judge_C20.vo"]
-    sizes = {"quick": 500, "thorough": 12000}
+    sizes = {"quick": 700, "thorough": 12000}
     shard = 125
     design_ref = "DESIGN.md section 6 C20, section 7 F-C20-a..f"
     rule = ("one case = one template executed by a real Engine: 1-3 initial arrays (literals or []interface{} page data, "
@@ -415,37 +568,59 @@ class C20(Prop):
             "'- var rN = recv.m(args)', '= recv.m(args)' or '- recv.m(args)', arguments as literals, native and boxed "
             "variables chosen in range by a plain simulation, results printed and results of splice/slice/split used as "
             "new receivers, aliases by '- var x = y'; after every call join(',') and length of every live array variable "
-            "are printed; 10% of the cases end in one out-of-range / ill-typed / wrong-arity call; non-trivial = at least "
-            "3 calls of which one mutates an array; distinct by SHA-1 of the case")
+            "are printed. 35% of the cases are string histories: 2-4 receivers drawn from tiny alphabets (blank/tab/line "
+            "feed with a letter; one or two letters giving runs and self-overlaps; the neighbours @ [ ` { of the letter "
+            "ranges, digits, punctuation; regular-expression operators), 60% of their calls are String methods and a third "
+            "of those split; split separators: the one-blank separator (50% where the receiver holds white space; half of "
+            "the splits re-pick a receiver with leading, trailing or adjacent blanks, a tab or a line feed, or a "
+            "self-overlapping piece), single and doubled characters and 2-3 character pieces of the receiver, pieces that "
+            "overlap themselves ('aa' on 'aaa'), the receiver itself, a separator longer than the receiver, the empty "
+            "separator, separators held in variables; indexOf needles: the empty string (15%), pieces, the receiver, "
+            "longer than the receiver, the other letter case; charAt/slice indices inside, at the length, and beyond it "
+            "(length+2..6, 50, 99, 1000), slice starts down to -length; the pieces of split are array receivers of "
+            "the following calls, so a wrong element count shows in length/join/indexOf/pop. The same strings (40%) "
+            "also feed the array histories. The evidence field distribution.string_method_situations counts the calls in each "
+            "named situation. 10% of the cases end in one out-of-range / ill-typed / wrong-arity call; non-trivial = at "
+            "least 3 calls of which one mutates an array or splits a string; distinct by SHA-1 of the case")
     trusted = [
         "M is a hand-written reading of pugjs/types.go (Array/String methods) and of evalCall/evalArg/validateType in "
         "pugjs/tpl_exec.go; reflect, Go slices/append, sort.Slice (modelled as a stable sort: it is an insertion sort up "
         "to 12 elements; longer arrays with equal keys on different values are declined as unmodelled), strings.Index/"
-        "Split/ToUpper/ToLower, big.Float formatting (integers below 10^10) are the Go runtime's, exercised by the "
-        "correspondence runs only",
-        "the text a template writes between values ('|'), the HTML escaper (strings avoid & < > \" ') and the pug front "
-        "end are outside this property: other properties cover them",
+        "Split/ToUpper/ToLower (modelled by str_index/str_split/up_char/low_char), big.Float formatting (integers "
+        "below 10^10) are the Go runtime's, exercised by the correspondence runs only",
+        "the text a template writes between values ('|'), the HTML escaper (strings avoid & < > \" ' \\ |) and the pug "
+        "front end are outside this property: other properties cover them",
         "S is JavaScript's Array.prototype / String.prototype on integers below 10^10, ASCII strings, booleans, null and "
-        "undefined, written from ECMA-262; no JavaScript engine is run",
+        "undefined, written from ECMA-262; no JavaScript engine is run. split (the SplitMatch loop), indexOf (smallest "
+        "matching position) and the case mappings (the 26 letter pairs) of S are definitions of their own, not the "
+        "helpers of M; C20_string_readings_agree proves the two readings equal for all strings and C20_split_join that "
+        "join(sep) undoes split(sep); the judge evaluates S's own definitions on the real code's output",
     ]
     assumptions = [
         "array elements and arguments are integers of magnitude below 10^10, ASCII strings, booleans and null; arrays "
         "inside arrays, printing an array itself, floats and non-ASCII strings are outside the claim",
-        "in-range means: splice/slice start in 0..length, charAt index >= 0, String.slice start >= -length, "
-        "join/split/String.indexOf arguments are strings",
+        "in-range means: splice/slice start in 0..length, charAt index >= 0 (any index at or beyond the length is in "
+        "range: ''), String.slice start >= -length (any start beyond the length is in range: ''), join/split/"
+        "String.indexOf arguments are strings (any string, the empty one included); String.slice with an end argument "
+        "is not modelled (such calls are declined as unmodelled); String.replace is not part of the property",
     ]
     not_yet_proved = []
 
     def generate(self, rng, n, tier):
         cases = []
         self.stats = {"lit": 0, "native": 0, "boxed": 0}
+        self.str_stats = {"string_histories": 0}
         maxops = 30 if tier == "quick" else 120
         for i in range(n):
             hostile = rng.random() < 0.10
             big = rng.random() < 0.15
-            c, st = gen_case(rng, maxops if big else 10, hostile)
+            stringy = rng.random() < 0.35
+            c, st = gen_case(rng, maxops if big else 10, hostile, stringy)
             for k in self.stats:
                 self.stats[k] += st["args"][k]
+            self.str_stats["string_histories"] += stringy
+            for k, v in st["str"].items():
+                self.str_stats[k] = self.str_stats.get(k, 0) + v
             cases.append(c)
         return cases
 
@@ -474,7 +649,7 @@ class C20(Prop):
 
     def nontrivial(self, case, obs):
         calls = [s for s in case["body"] if s["op"] == "call" and not (s["mode"] == "print" and s["f"] in ("join", "length"))]
-        return len(calls) >= 3 and any(s["f"] in MUTATING for s in calls)
+        return len(calls) >= 3 and any(s["f"] in MUTATING or s["f"] == "split" for s in calls)
 
     def sample(self, case, obs):
         nodes, data = template(case)
@@ -510,7 +685,8 @@ class C20(Prop):
     def distribution(self, cases, obss):
         d = {"methods": {}, "modes": {}, "go_class": {}, "history_len": {"1-5": 0, "6-15": 0, "16-40": 0, "41+": 0},
              "initial_arrays": {"lit": 0, "data": 0}, "aliases": 0,
-             "argument_kinds": dict(getattr(self, "stats", {}))}
+             "argument_kinds": dict(getattr(self, "stats", {})),
+             "string_method_situations": dict(sorted(getattr(self, "str_stats", {}).items()))}
         for c, o in zip(cases, obss):
             n = 0
             for s in c["body"]:
